@@ -359,6 +359,37 @@ def evaluate_cases(mod, cases, timeout):
     return findings, stats, impl_replies
 
 
+def source_fingerprint(path):
+    """sha1 of the token stream without comments, blank lines and layout (same function as tools/update_anchors.py)"""
+    import tokenize, io
+    try:
+        src = open(path, 'rb').read()
+        toks = []
+        for t in tokenize.tokenize(io.BytesIO(src).readline):
+            if t.type in (tokenize.COMMENT, tokenize.NL, tokenize.NEWLINE, tokenize.INDENT, tokenize.DEDENT, tokenize.ENCODING, tokenize.ENDMARKER):
+                if t.type in (tokenize.INDENT, tokenize.DEDENT, tokenize.NEWLINE):
+                    toks.append(tokenize.tok_name[t.type])
+                continue
+            toks.append(t.string)
+        return hashlib.sha1('\x00'.join(toks).encode()).hexdigest()
+    except Exception as e:
+        return 'unreadable:' + type(e).__name__
+
+
+def changed_anchors(pid):
+    """anchored source files of the property that differ (comments and layout aside) from the state recorded in anchors.json"""
+    try:
+        rec = json.load(open(os.path.join(VERIF, 'anchors.json')))
+        files = []
+        for l in open(os.path.join(VERIF, 'properties.jsonl')):
+            p = json.loads(l)
+            if p['id'] == pid:
+                files = p['anchors']['files']
+        return [f for f in files if rec.get(f) != source_fingerprint(os.path.join(REPO, f))]
+    except Exception:
+        return []
+
+
 def warm_up():
     """touch the lazily imported parts of the stack once, outside any alarm (first calls on a cold sandbox take seconds)"""
     try:
@@ -439,6 +470,29 @@ def run_check(pid, tier, seed, replay=None):
         return new_v, new_d, kn
 
     new, divs, knowns = classify(findings)
+    # the anchored source differs from the recorded state and nothing has been found yet: search harder (more generated
+    # cases and the laws at thorough budget, up to BOOST_SECONDS).  This can only add findings, never an alarm by itself.
+    changed = [] if replay else changed_anchors(pid)
+    boost_cases = 0
+    if changed and not new and not replay:
+        t_boost = time.time()
+        budget = float(os.environ.get('VERIF_BOOST_SECONDS', '90'))
+        k = 0
+        while not new and time.time() - t_boost < budget and k < 8:
+            k += 1
+            rngb = random.Random('%s-boost-%d-%d' % (pid, seed, k))
+            extra = list(mod.generate(rngb, tier))
+            boost_cases += len(extra)
+            fb, _, _ = evaluate_cases(mod, extra, timeout)
+            if hasattr(mod, 'laws') and not any(f.kind == 'violation' for f in fb):
+                for f in iter_laws(mod, rngb, tier, dict(stats=stats)):
+                    if isinstance(f, Finding):
+                        fb.append(f)
+            vb, db, kb = classify(fb)
+            new.extend(vb)
+            divs.extend(db)
+            for kk, vv in kb.items():
+                knowns.setdefault(kk, vv)
     # a broken obligation or an unexplained divergence -> focused search for a concrete failing input
     searched = 0
     if (my_broken or divs) and not new and not replay:
@@ -533,7 +587,7 @@ def run_check(pid, tier, seed, replay=None):
             samples=samples, corpus_cases=ncorpus, generated_cases=len(gen_cases), law_instances=law_count,
             agree=stats['agree'], model_bad_op=stats['bad_op'], impl_error_kinds=stats['errors'],
             case_kinds=stats['tags'], broken_obligations=my_broken, known_findings=sorted(knowns),
-            extra=getattr(mod, 'EXTRA', {}), leanchecker_rc=log.get('leanchecker_rc'), translator=log.get('translator'),
+            extra=getattr(mod, 'EXTRA', {}), anchored_source_changed=changed, boost_cases=boost_cases, leanchecker_rc=log.get('leanchecker_rc'), translator=log.get('translator'),
             exhaustive=bool(getattr(mod, 'EXHAUSTIVE', {}).get(tier, False))),
         assumptions=list(getattr(mod, 'ASSUMPTIONS', [])),
         wall_s=round(time.time() - t0, 2), violations=len(new) if new else (1 if (my_broken or divs) else 0))
